@@ -60,6 +60,20 @@ type c06Chaos struct {
 	pingAck  chan [8]byte
 	wg       sync.WaitGroup
 	hdrOpen  uint32
+	pings     uint64 // PINGs sent so far (payload = the count)
+	pingAcked uint64 // highest payload acknowledged so far
+}
+
+// ping sends a PING (recorded; the acknowledgement shows up in the history as Y<payload>).
+func (p *c06Chaos) ping() {
+	// callers hold p.mu
+	p.pings++
+	v := p.pings
+	var d [8]byte
+	for i := 0; i < 8; i++ {
+		d[i] = byte(v >> (56 - 8*uint(i)))
+	}
+	p.send(fmt.Sprintf("<p:0:%d", v), func() { p.fr.WritePing(false, d) })
 }
 
 // send writes one peer frame and records it, atomically with respect to the history.
@@ -121,7 +135,8 @@ func (p *c06Chaos) reader() {
 				p.streams[h.StreamID] = st
 			}
 			if f.StreamEnded() {
-				st.reqEnded = true
+				st.reqEnded = true // (also the END_STREAM of a trailer block)
+				p.cond.Broadcast()
 			}
 			if f.HeadersEnded() {
 				p.startResponder(st)
@@ -149,6 +164,14 @@ func (p *c06Chaos) reader() {
 			p.cond.Broadcast()
 		case *xhttp2.PingFrame:
 			if f.IsAck() {
+				var v uint64
+				for i := 0; i < 8; i++ {
+					v = v<<8 | uint64(f.Data[i])
+				}
+				p.hist = append(p.hist, fmt.Sprintf("Y%d", v))
+				if v > p.pingAcked {
+					p.pingAcked = v
+				}
 				select {
 				case p.pingAck <- f.Data:
 				default:
@@ -197,11 +220,28 @@ func (p *c06Chaos) respond(st *c06ChaosStream, size int, early bool, resetAt int
 	if st.reset || p.closed {
 		return
 	}
+	for k := r.Intn(8); k == 0 || k == 1; k-- { // one or two informational responses first, now and then
+		p.hbuf.Reset()
+		p.henc.WriteField(hpack.HeaderField{Name: ":status", Value: "103"})
+		blk := append([]byte{}, p.hbuf.Bytes()...)
+		p.send(fmt.Sprintf("<h:%d:0:103:-", st.id), func() {
+			p.fr.WriteHeaders(xhttp2.HeadersFrameParam{StreamID: st.id, BlockFragment: blk, EndHeaders: true})
+		})
+		if k == 0 {
+			break
+		}
+	}
 	p.hbuf.Reset()
 	p.henc.WriteField(hpack.HeaderField{Name: ":status", Value: "200"})
+	clTok := "-"
+	if resetAt < 0 && r.Intn(4) == 0 { // a declared (and honoured) Content-Length
+		p.henc.WriteField(hpack.HeaderField{Name: "content-length", Value: fmt.Sprint(size)})
+		clTok = fmt.Sprint(size)
+	}
 	blk := append([]byte{}, p.hbuf.Bytes()...)
 	end := size == 0 && resetAt < 0
-	p.send(fmt.Sprintf("<h:%d:%s", st.id, c06B(end)), func() {
+	trailers := !end && resetAt < 0 && r.Intn(6) == 0 // the response ends with a trailer block
+	p.send(fmt.Sprintf("<h:%d:%s:200:%s", st.id, c06B(end), clTok), func() {
 		p.fr.WriteHeaders(xhttp2.HeadersFrameParam{StreamID: st.id, BlockFragment: blk, EndHeaders: true, EndStream: end})
 	})
 	if end {
@@ -220,7 +260,16 @@ func (p *c06Chaos) respond(st *c06ChaosStream, size int, early bool, resetAt int
 			return
 		}
 		if sent >= size {
-			p.send(fmt.Sprintf("<d:%d:0:0:1", st.id), func() { p.fr.WriteData(st.id, true, nil) })
+			if trailers {
+				p.hbuf.Reset()
+				p.henc.WriteField(hpack.HeaderField{Name: "x-trailer", Value: "1"})
+				tb := append([]byte{}, p.hbuf.Bytes()...)
+				p.send(fmt.Sprintf("<h:%d:1:0:-", st.id), func() {
+					p.fr.WriteHeaders(xhttp2.HeadersFrameParam{StreamID: st.id, BlockFragment: tb, EndHeaders: true, EndStream: true})
+				})
+			} else {
+				p.send(fmt.Sprintf("<d:%d:0:0:1", st.id), func() { p.fr.WriteData(st.id, true, nil) })
+			}
 			st.respDone = true
 			return
 		}
@@ -246,7 +295,7 @@ func (p *c06Chaos) respond(st *c06ChaosStream, size int, early bool, resetAt int
 		if resetAt >= 0 && sent+n > resetAt && resetAt > sent {
 			n = resetAt - sent
 		}
-		last := sent+n >= size && resetAt < 0
+		last := sent+n >= size && resetAt < 0 && !trailers
 		p.send(fmt.Sprintf("<d:%d:%d:%d:%s", st.id, n, pad, c06B(last)), func() {
 			if pad > 0 {
 				p.fr.WriteDataPadded(st.id, last, c06Zeros[:n], c06Zeros[:pad-1])
@@ -280,6 +329,9 @@ func (p *c06Chaos) granter(r *rand.Rand, rounds int) {
 			return
 		}
 		generous := i >= rounds // after a while: settle on generous values so that everything finishes
+		if r.Intn(10) == 0 {
+			p.ping()
+		}
 		if p.owedConn > 0 && (generous || r.Intn(2) == 0) {
 			inc := p.owedConn
 			if !generous && inc > 1 && r.Intn(3) != 0 {
@@ -371,6 +423,7 @@ func c06MonitorRun(cfg c06Cfg, seed int64, workers, perWorker int) (*c06MonitorR
 		rnd: rand.New(rand.NewSource(r.Int63())), pingAck: make(chan [8]byte, 4)}
 	p.cond = sync.NewCond(&p.mu)
 	p.henc = hpack.NewEncoder(&p.hbuf)
+	p.henc.SetMaxDynamicTableSize(0) // whatever SETTINGS_HEADER_TABLE_SIZE the client advertises
 	p.fr = xhttp2.NewFramer(srv, srv)
 	p.fr.AllowIllegalReads = true
 	p.fr.SetMaxReadFrameSize(1<<24 - 1)
@@ -421,6 +474,11 @@ func c06MonitorRun(cfg c06Cfg, seed int64, workers, perWorker int) (*c06MonitorR
 				if pad > 0 {
 					req.Header.Set("X-Pad", strings.Repeat("~", pad))
 				}
+				trailer := 0
+				if body != nil && wr.Intn(6) == 0 { // request trailers (a second header block, with END_STREAM)
+					trailer = verifh.Pick(wr, []int{1, 100, 16400, 40000})
+					req.Trailer = http.Header{"X-Trl": {strings.Repeat("~", trailer)}}
+				}
 				rmu.Lock()
 				res.requests++
 				rmu.Unlock()
@@ -444,6 +502,9 @@ func c06MonitorRun(cfg c06Cfg, seed int64, workers, perWorker int) (*c06MonitorR
 							req, _ = http.NewRequestWithContext(ctx, "POST", "https://verif.test/m", body)
 							if pad > 0 {
 								req.Header.Set("X-Pad", strings.Repeat("~", pad))
+							}
+							if trailer > 0 {
+								req.Trailer = http.Header{"X-Trl": {strings.Repeat("~", trailer)}}
 							}
 						}
 						continue
@@ -506,15 +567,27 @@ func c06MonitorRun(cfg c06Cfg, seed int64, workers, perWorker int) (*c06MonitorR
 	p.stop = true
 	p.cond.Broadcast()
 	closed := p.closed
+	var barrier uint64
 	if !closed {
-		p.fr.WritePing(false, [8]byte{9, 9, 9, 9, 9, 9, 9, 9})
+		p.ping()
+		barrier = p.pings
 	}
 	p.mu.Unlock()
 	if !closed {
-		select {
-		case <-p.pingAck:
-		case <-time.After(5 * time.Second):
-			res.stalled = true
+		// the acknowledgement of THIS ping (the granter's earlier ones may still be coming in)
+		deadline := time.Now().Add(5 * time.Second)
+		for {
+			p.mu.Lock()
+			done := p.pingAcked >= barrier || p.closed
+			p.mu.Unlock()
+			if done {
+				break
+			}
+			if time.Now().After(deadline) {
+				res.stalled = true
+				break
+			}
+			time.Sleep(200 * time.Microsecond)
 		}
 	}
 	// a short grace period for a late RST_STREAM of a request that finished with an error
@@ -641,9 +714,25 @@ func TestVerif_C06_monitor(t *testing.T) {
 				evenPrio = true
 			}
 		}
+		// a trailer block: a HEADERS frame (or its CONTINUATION) on a stream that had its HEADERS before
+		trailerFrame := false
+		if badAt >= 0 && badAt < len(p.res.history) {
+			ev := p.res.history[badAt]
+			if strings.HasPrefix(ev, "H") || strings.HasPrefix(ev, "C") {
+				id := c06StreamOf(ev)
+				for _, e := range p.res.history[:badAt] {
+					if strings.HasPrefix(e, "D") && c06StreamOf(e) == id {
+						trailerFrame = true // DATA came before it: not the request's first header block
+						break
+					}
+				}
+			}
+		}
 		switch {
 		case race:
 			class = "c06-settings-ack-race"
+		case verdict == "violation:frame-size" && trailerFrame:
+			class = c06Classes[6] // request trailers split with a MAX_FRAME_SIZE that was lowered since (fixes/C06-7)
 		case verdict == "violation:frame-size" && callerMaxFrame:
 			class = c06Classes[0]
 		case verdict == "violation:even-stream-id" && evenPrio:
